@@ -165,6 +165,9 @@ struct ScopeVisitor {
 
     // sigh
     else_blocks: HashSet<Range>,
+
+    // How many function bodies enclose the node being visited
+    function_depth: usize,
 }
 
 #[derive(Debug)]
@@ -286,6 +289,7 @@ impl ScopeVisitor {
                 scope_stack: vec![id],
 
                 else_blocks: HashSet::new(),
+                function_depth: 0,
             };
 
             output.visit_ast(ast);
@@ -427,6 +431,16 @@ impl ScopeVisitor {
         let identifier = range(token);
 
         if self.captured_references.contains(&identifier) {
+            return;
+        }
+
+        // `...` of the main chunk is available in every block that is not inside a function
+        if self.function_depth == 0
+            && *token.token_type()
+                == (TokenType::Symbol {
+                    symbol: Symbol::Ellipsis,
+                })
+        {
             return;
         }
 
@@ -914,6 +928,7 @@ impl Visitor for ScopeVisitor {
     }
 
     fn visit_function_body(&mut self, body: &ast::FunctionBody) {
+        self.function_depth += 1;
         self.open_scope(body);
 
         self.current_scope().blocked.push(Cow::Borrowed("..."));
@@ -927,6 +942,7 @@ impl Visitor for ScopeVisitor {
 
     fn visit_function_body_end(&mut self, _: &ast::FunctionBody) {
         self.close_scope();
+        self.function_depth -= 1;
     }
 
     fn visit_function_call(&mut self, call: &ast::FunctionCall) {
